@@ -130,6 +130,10 @@ type zzHist struct {
 	label     string
 	target    string // task named in dry runs
 	sibling   bool   // the Taskfile of this step has the all/lint tasks
+	methodOnTask bool // method: set on the task, the Taskfile says the other one
+	reinclude    bool // sources re-include the excluded file
+	nestedGuard  bool // the task ends with a call of a task that has a precondition
+	preFails     bool // ... which fails in this step
 	instances bool   // label and sources depend on the call variable T
 	inst      string // value of T in this step
 	exit      map[string]uint8
@@ -138,9 +142,23 @@ type zzHist struct {
 
 func (h *zzHist) taskfile() *ast.Taskfile {
 	tf := &ast.Taskfile{Vars: ast.NewVars(), Env: ast.NewVars(), Tasks: ast.NewTasks(), Run: "always", Method: h.method}
+	if h.methodOnTask { // the Taskfile-level method is the other one; the task overrides it
+		tf.Method = map[string]string{"checksum": "timestamp", "timestamp": "checksum"}[h.method]
+	}
 	t := &ast.Task{Task: "build", Label: h.label, Location: &ast.Location{Taskfile: h.p.path("Taskfile.yml")}, Vars: ast.NewVars(), Env: ast.NewVars(),
 		Dir:     h.p.root,
 		Sources: []*ast.Glob{{Glob: "*.src"}, {Glob: "skip.src", Negate: true}},
+	}
+	if h.methodOnTask {
+		t.Method = h.method
+	}
+	if h.reinclude { // a later entry brings the excluded file back
+		t.Sources = append(t.Sources, &ast.Glob{Glob: "skip.src"})
+	}
+	if h.nestedGuard { // a sub-call whose precondition fails
+		t.Cmds = append(t.Cmds, &ast.Cmd{Task: "check"})
+		tf.Tasks.Set("check", &ast.Task{Task: "check", Location: &ast.Location{Taskfile: h.p.path("Taskfile.yml")}, Vars: ast.NewVars(), Env: ast.NewVars(),
+			Dir: h.p.root, Preconditions: []*ast.Precondition{{Sh: h.preText(), Msg: "no"}}, Cmds: []*ast.Cmd{{Cmd: h.otherText()}}})
 	}
 	if h.instances {
 		t.Label = "build-{{.T}}"
@@ -182,6 +200,13 @@ func (h *zzHist) taskfile() *ast.Taskfile {
 	return tf
 }
 
+func (h *zzHist) preText() string {
+	if zz.Native() {
+		return "test ! -f guardfail"
+	}
+	return "pre G"
+}
+
 func (h *zzHist) lintText() string {
 	if zz.Native() {
 		return "echo S:lint.0; sleep 0.2; exit 1"
@@ -208,7 +233,7 @@ func (h *zzHist) cmdText(k int, last bool) string {
 		if last && h.hasGen {
 			s += "echo built > out; "
 		}
-		return s + "true"
+		return s + fmt.Sprintf("echo F:%s:0", id)
 	}
 	if last && h.hasGen {
 		return "hprobe " + id + " 1"
@@ -219,6 +244,12 @@ func (h *zzHist) cmdText(k int, last bool) string {
 // zzHistShell: the shell of the model.
 func (h *zzHist) shell(ctx context.Context, opts *execext.RunCommandOptions) error {
 	f := strings.Fields(opts.Command)
+	if strings.HasPrefix(opts.Command, "pre ") { // the precondition of the nested task
+		if h.preFails {
+			return interp.NewExitStatus(1)
+		}
+		return nil
+	}
 	if len(f) != 3 || f[0] != "hprobe" {
 		return nil
 	}
@@ -367,6 +398,10 @@ func ZZ_H_History() {
 	h.hasPrompt = zz.Param("sibling_history", 0) == 0 && zz.Bool("has_prompt")
 	h.hasGen = zz.Bool("has_generates")
 	h.twoCmds = zz.Param("two_cmds", 0) == 1 && zz.Bool("two_cmds")
+	h.methodOnTask = prop != 12 && zz.Bool("method_set_on_task")
+	h.reinclude = (prop == 5 || prop == 4) && zz.Bool("sources_reinclude_excluded_file")
+	h.nestedGuard = prop == 12 && zz.Bool("nested_call_with_failing_guard")
+	zzPreFail = true
 	h.p.put("a.src", "v0")
 	h.p.put("skip.src", "s0")
 	// ghost state: the source version for which the most recent attempt to run the
@@ -396,8 +431,11 @@ func ZZ_H_History() {
 				if h.hasGen && h.p.exists("out") {
 					h.p.remove("out")
 				}
-			case 5: // an excluded file changes
+			case 5: // an excluded file changes (unless a later sources entry re-includes it)
 				h.p.put("skip.src", fmt.Sprintf("s%d", k))
+				if h.reinclude {
+					version++
+				}
 			case 6: // rename a.src -> c.src
 				if h.p.exists("a.src") && !h.p.exists("c.src") {
 					h.p.remove("a.src")
@@ -425,6 +463,15 @@ func ZZ_H_History() {
 		}
 		if mode == zzModeRun || mode == zzModeForce {
 			failCmd = zz.Choose(fmt.Sprintf("fail%d", k), nfail) - 1
+		}
+		h.preFails = h.nestedGuard && zz.Bool(fmt.Sprintf("nested_guard_fails%d", k))
+		if zz.Native() && h.nestedGuard {
+			// natively the precondition is `test ! -f guardfail`
+			if h.preFails {
+				os.WriteFile(h.p.path("guardfail"), nil, 0o644)
+			} else {
+				os.Remove(h.p.path("guardfail"))
+			}
 		}
 		h.target = "build"
 		if prop == 12 && mode == zzModeDry && zz.Bool(fmt.Sprintf("dry_target_has_missing_dir%d", k)) {
